@@ -330,13 +330,14 @@ def w_model(ctx, rng, i):
         Xin = X.copy() if rng.random() < 0.5 else [row.copy() for row in X]
         # (the documented n_samples argument with a sequence of samples: "this many of them")
         nkw = {"n_samples": n} if isinstance(Xin, list) and rng.random() < 0.4 else {}
-        model = PCAVectorModel(Xin, centre=centre, inplace=bool(rng.random() < 0.5), **nkw)
+        # (the flag in any spelling a caller's own computation yields: a Python bool, a numpy bool, 0 / 1)
+        model = PCAVectorModel(Xin, centre=[centre, centre, np.bool_(centre), int(centre)][rng.integers(0, 4)], inplace=bool(rng.random() < 0.5), **nkw)
     else:
         samples, X = make_backed(rng, backing, n, d)
         if samples[0].as_vector().dtype.kind in "iu":
             backing = "int_" + backing
         # (integer-typed samples cannot be centred in place - the constructor refuses loudly -: the documented inplace=False is the way)
-        model = PCAModel(samples, centre=True, **({"inplace": False} if backing.startswith("int_") else {}))
+        model = PCAModel(samples, centre=[True, True, np.True_, 1][rng.integers(0, 4)], **({"inplace": False} if backing.startswith("int_") else {}))
         d = X.shape[1]
     cls = type(model).__name__
     m, lam, V = reference(X, centre)
